@@ -15,7 +15,7 @@ gvars == <<sub, ws, res, ret, hist>>
 G_PushVals == {NAN, NEG, 0, 1, M - 1}
 G_UpdVals  == {0, 2, M}
 G_UpdIdx   == 0..3
-G_NewLists == { <<>>, <<1, 2, 0, 1>>, <<M - 2, 0, 1>> }
+G_NewLists == { <<>>, <<1, 2, 0, 1>>, <<M - 2, 0, 1>>, <<NEG, 1, 1>>, <<1, NEG, 0, 2, 1>> }
 
 Rec(op, i, w, l) == [op |-> op, i |-> i, w |-> w, l |-> l,
                      res |-> res', ret |-> ret', ws |-> ws',
